@@ -643,6 +643,7 @@ def StmtWF (sc : Schema) : Stmt → Prop
   | .update sets _ => ∀ p ∈ sets, p.1 < sc.ncols ∧ p.1 ∉ sc.pk
   | .delete _ => True
   | .insert rows => ∀ es ∈ rows, es.length = sc.ncols
+  | .failing _ => True
 
 theorem stmt_restore (sc : Schema) (cfg : Cfg) (t : Table) (args : Args) (s : Stmt)
     (t' : Table) (item : Item) (keys : List Key)
@@ -652,6 +653,7 @@ theorem stmt_restore (sc : Schema) (cfg : Cfg) (t : Table) (args : Args) (s : St
   | update sets w => exact update_restore sc cfg t args sets w t' item keys hu hsh hs h
   | delete w => exact delete_restore sc cfg t args w t' item keys hu hsh h
   | insert rows => exact insert_restore sc cfg t args rows t' item keys hu hsh hs h
+  | failing s => simp [stmtPhase1] at h
 
 /-! ### one branch -/
 
